@@ -22,15 +22,15 @@ var stdNames = []document.PageSize{document.PageSizeA4, document.PageSizeLetter,
 
 // pageRec is the reference record: per attribute the value of the most recent call naming it.
 type pageRec struct {
-	Size                     document.PageSize // predefined name or Custom
-	W, H                     float64           // logical (portrait-order) dimensions in mm
-	Orient                   document.PageOrientation
-	MT, MR, MB, ML           float64
-	Header, Footer, Gutter   float64
-	GridType                 document.DocGridType
-	GridPitch, GridChar      int
-	GridCleared              bool // no grid written (cleared, or settings were written without naming a grid)
-	Fresh                    bool // nothing has been written yet: the accessor reports the defaults
+	Size                   document.PageSize // predefined name or Custom
+	W, H                   float64           // logical (portrait-order) dimensions in mm
+	Orient                 document.PageOrientation
+	MT, MR, MB, ML         float64
+	Header, Footer, Gutter float64
+	GridType               document.DocGridType
+	GridPitch, GridChar    int
+	GridCleared            bool // no grid written (cleared, or settings were written without naming a grid)
+	Fresh                  bool // nothing has been written yet: the accessor reports the defaults
 }
 
 func defaultRec() pageRec {
